@@ -124,3 +124,49 @@ package storage
 //@   ensures [partial] err != nil ==> badger.kvget(*txn, STK(PH(snap.Snapshot))) == old(badger.kvget(*txn, STK(PH(snap.Snapshot))))
 //@   ensures [keeps-topo-ok] old(TopoOK(*txn)) ==> TopoOK(*txn)
 //@   ensures [keeps-snaptopo-ok] old(SnapTopoOK(*txn)) ==> SnapTopoOK(*txn)
+
+//@ -- ═════════ the public observation points: one read-only transaction over the committed state each ═════════
+//@ spec DbTopoOK(d badger.DB) bool = forall k mathint :: {badger.dbget(d, k)} badger.dbget(d, k) != 0 && badger.keypfx(k, strkey(graphPrefixTopology)) == 0 ==> IsTopoKey(k)
+//@ spec DbSnapTopoOK(d badger.DB) bool = forall k mathint :: {badger.dbget(d, k)} badger.dbget(d, k) != 0 && keykind(k) == 8 ==> IsTopoKey(badger.dbget(d, k))
+//@ spec DbAt(d badger.DB, o mathint) mathint = badger.dbget(d, TP(o))
+//@ spec DbStored(d badger.DB, o mathint) mathint = badger.dbget(d, badger.dbget(d, TP(o)))
+
+//@ func (s *BadgerStore) ReadSnapshotsSinceTopology
+//@   property C35
+//@   requires s != nil && s.snapshotsDB != nil && DbTopoOK(*s.snapshotsDB)
+//@   modifies nothing
+//@   ensures [too-many] count > 500 ==> err != nil && len(result0) == 0
+//@   ensures [limit] len(result0) <= count
+//@   ensures [own-position] forall j int :: {result0[j]} 0 <= j && j < len(result0) ==> result0[j] != nil && result0[j].Snapshot != nil && topologyOffset <= result0[j].TopologicalOrder && DbAt(*s.snapshotsDB, result0[j].TopologicalOrder) != 0
+//@   ensures [stored] forall j int :: {result0[j]} 0 <= j && j < len(result0) ==> common.SnapSrc(result0[j].Snapshot) == DbStored(*s.snapshotsDB, result0[j].TopologicalOrder)
+//@   ensures [payload-hash] forall j int :: {result0[j]} 0 <= j && j < len(result0) ==> result0[j].Hash == PH(result0[j].Snapshot)
+//@   ensures [increasing] forall i, j int :: {result0[i], result0[j]} 0 <= i && i < j && j < len(result0) ==> result0[i].TopologicalOrder < result0[j].TopologicalOrder
+//@   ensures [from-cursor] len(result0) > 0 ==> forall x mathint :: {DbAt(*s.snapshotsDB, x)} topologyOffset <= x && x < result0[0].TopologicalOrder ==> DbAt(*s.snapshotsDB, x) == 0
+//@   ensures [contiguous] forall j int, x mathint :: {result0[j], DbAt(*s.snapshotsDB, x)} 0 <= j && j + 1 < len(result0) && result0[j].TopologicalOrder < x && x < result0[j+1].TopologicalOrder ==> DbAt(*s.snapshotsDB, x) == 0
+//@   ensures [complete] err == nil && len(result0) < count ==> forall x mathint :: {DbAt(*s.snapshotsDB, x)} U64(x) && (len(result0) == 0 ? topologyOffset <= x : result0[len(result0)-1].TopologicalOrder < x) ==> DbAt(*s.snapshotsDB, x) == 0
+
+//@ func (s *BadgerStore) ReadSnapshot
+//@   property C35
+//@   requires s != nil && s.snapshotsDB != nil && DbSnapTopoOK(*s.snapshotsDB)
+//@   modifies nothing
+//@   ensures [unknown-hash] err == nil && result0 == nil ==> badger.dbget(*s.snapshotsDB, STK(hash)) == 0
+//@   ensures [found] result0 != nil ==> err == nil && result0.Snapshot != nil && result0.Hash == hash
+//@   ensures [position] result0 != nil ==> badger.dbget(*s.snapshotsDB, STK(hash)) == TP(result0.TopologicalOrder)
+//@   ensures [stored] result0 != nil ==> common.SnapSrc(result0.Snapshot) == DbStored(*s.snapshotsDB, result0.TopologicalOrder)
+
+//@ -- ASSUMED (not C35's subject; LastSnapshot only collects the transaction bodies with it): readTransaction reads through the transaction
+//@ -- and writes nothing visible. Its body is NOT verified here: on a Get error other than ErrKeyNotFound it dereferences the nil item
+//@ -- (known, DESIGN.md §6 "storage.readTransaction dereferences a nil item"), which is why it is not simply inlined.
+//@ assume func readTransaction
+//@   requires txn != nil
+//@   modifies nothing
+
+//@ -- LastSnapshot seeds the node's counter after a restart (kernel.getTopologyCounter): the snapshot at the GREATEST occupied position.
+//@ -- maypanic: the explicit panics are the documented reactions to a store without any snapshot or a read error at startup.
+//@ func (s *BadgerStore) LastSnapshot
+//@   property C35
+//@   maypanic
+//@   requires s != nil && s.snapshotsDB != nil && DbTopoOK(*s.snapshotsDB)
+//@   ensures [greatest] result0 != nil && result0.Snapshot != nil && DbAt(*s.snapshotsDB, result0.TopologicalOrder) != 0 &&
+//@       forall x mathint :: {DbAt(*s.snapshotsDB, x)} U64(x) && DbAt(*s.snapshotsDB, x) != 0 ==> x <= result0.TopologicalOrder
+//@   ensures [payload-hash] result0.Hash == PH(result0.Snapshot)
